@@ -399,7 +399,7 @@ pub fn run(ctx: &'static Ctx) -> ! {
                         l.violation(k, case_json(sc, ch, &r, &mism, &got));
                     } else {
                         real += 1;
-                        l.violation(&format!("{k}/{ks}"), case_json(sc, ch, &r, &mism, &got));
+                        l.violation(&format!("{k}/{}:{ks}", ch.0.len()), case_json(sc, ch, &r, &mism, &got));
                     }
                 }
                 let cls = if real == 0 { format!("known-wks {}", fam.name) } else { format!("MISMATCH {}", mism[0].0) };
